@@ -147,6 +147,9 @@ fn obs_ctx<Ctx: ScriptContext>(u: &Universe, case: &Value) -> Value {
         Ok(p) => json!({"ok": true, "err": "", "pol": pol_to_json(u, &p)}),
         Err(e) => json!({"ok": false, "err": e.to_string(), "pol": {"p": "unsat", "n": 0, "xs": []}}),
     });
+    // validation switches (C12)
+    ev["val"] = guarded(|| validation_obs::<Ctx>(&ms));
+    ev["descs"] = guarded(|| desc_entry_points::<Ctx>(u, ctx, &s));
     // text
     ev["text"] = guarded(|| {
         let s1 = ms.to_string();
@@ -281,4 +284,148 @@ pub fn run_case(u: &Universe, case: &Value) -> Vec<Value> {
         _ => panic!("bad ctx"),
     };
     vec![ev]
+}
+
+const SWITCHES: [&str; 13] = [
+    "allow_compressed_keys", "allow_duplicate_keys", "allow_dup_if", "allow_malleability", "allow_mixed_time_locks",
+    "allow_multi", "allow_multi_a", "allow_or_i", "allow_sigless_branch", "allow_non_b", "allow_uncompressed_keys",
+    "allow_unsatisfiable", "allow_x_only_keys",
+];
+
+fn flip(mut p: miniscript::ValidationParams, sw: &str) -> miniscript::ValidationParams {
+    match sw {
+        "allow_compressed_keys" => p.allow_compressed_keys = false,
+        "allow_duplicate_keys" => p.allow_duplicate_keys = false,
+        "allow_dup_if" => p.allow_dup_if = false,
+        "allow_malleability" => p.allow_malleability = false,
+        "allow_mixed_time_locks" => p.allow_mixed_time_locks = false,
+        "allow_multi" => p.allow_multi = false,
+        "allow_multi_a" => p.allow_multi_a = false,
+        "allow_or_i" => p.allow_or_i = false,
+        "allow_sigless_branch" => p.allow_sigless_branch = false,
+        "allow_non_b" => p.allow_non_b = false,
+        "allow_uncompressed_keys" => p.allow_uncompressed_keys = false,
+        "allow_unsatisfiable" => p.allow_unsatisfiable = false,
+        "allow_x_only_keys" => p.allow_x_only_keys = false,
+        _ => panic!("bad switch"),
+    }
+    p
+}
+
+fn validation_obs<Ctx: ScriptContext>(ms: &Miniscript<Pk, Ctx>) -> Value {
+    use miniscript::ValidationParams as VP;
+    let mut sw = serde_json::Map::new();
+    for s in SWITCHES.iter() {
+        sw.insert(s.to_string(), json!(ms.validate(&flip(VP::MAX, s)).is_ok()));
+    }
+    // numeric limits around the library's own published figures
+    let around = |figure: usize, set: &dyn Fn(&mut VP, usize)| -> Value {
+        let mut out = vec![];
+        for d in [-1i64, 0, 1] {
+            let v = figure as i64 + d;
+            if v < 0 {
+                out.push(json!(false));
+                continue;
+            }
+            let mut p = VP::MAX;
+            set(&mut p, v as usize);
+            out.push(json!(ms.validate(&p).is_ok()));
+        }
+        json!(out)
+    };
+    let sat = ms.ext.sat_data;
+    let lim = json!({
+        "script_size": around(ms.script_size(), &|p, v| p.max_script_size = v),
+        "script_size_fig": ms.script_size(),
+        "has_sat": sat.is_some(),
+        "witness_items": match ms.max_satisfaction_witness_elements() { Ok(n) => around(n, &|p, v| p.max_witness_items = v), Err(_) => json!([true, true, true]) },
+        "witness_items_fig": ms.max_satisfaction_witness_elements().map(|x| x as i64).unwrap_or(-1),
+        "opcount": match sat { Some(d) => around(ms.ext.static_ops + d.max_exec_op_count, &|p, v| p.max_opcode_count = v), None => json!([true, true, true]) },
+        "exec_stack": match sat { Some(d) => around(d.max_witness_stack_count + d.max_exec_stack_count, &|p, v| p.max_exec_stack_size = v), None => json!([true, true, true]) },
+        "depth": around(ms.ext.tree_height, &|p, v| p.max_recursive_depth = v),
+        "depth_fig": ms.ext.tree_height,
+    });
+    // monotonicity over the lattice generated by single flips: validate(p /\ q) ok => validate(p) ok
+    let mut mono_bad: Vec<String> = vec![];
+    let flips: Vec<VP> = SWITCHES.iter().map(|s| flip(VP::MAX, s)).collect();
+    for (i, p) in flips.iter().enumerate() {
+        for (j, q) in flips.iter().enumerate() {
+            let pq = p.intersect(q);
+            let ok_pq = ms.validate(&pq).is_ok();
+            if ok_pq && !(ms.validate(p).is_ok() && ms.validate(q).is_ok()) {
+                mono_bad.push(format!("{}&{}", SWITCHES[i], SWITCHES[j]));
+            }
+            if !(pq.entails(p) && pq.entails(q)) {
+                mono_bad.push(format!("lattice:{}&{}", SWITCHES[i], SWITCHES[j]));
+            }
+        }
+    }
+    json!({
+        "ok": true, "err": "",
+        "max": ms.validate(&VP::MAX).is_ok(),
+        "consensus": ms.validate(&Ctx::CONSENSUS).is_ok(),
+        "sane": ms.validate(&Ctx::SANE).is_ok(),
+        "sw": Value::Object(sw), "lim": lim, "mono_bad": mono_bad,
+        "sane_entails_consensus": Ctx::SANE.entails(&Ctx::CONSENSUS),
+    })
+}
+
+/// every descriptor-level entry point that can wrap this miniscript text
+fn desc_entry_points<Ctx: ScriptContext>(u: &Universe, ctx: &str, ms_str: &str) -> Value {
+    use miniscript::descriptor::{Bare, Sh, Wsh};
+    use miniscript::Descriptor;
+    let wraps: Vec<&str> = match ctx {
+        "bare" => vec!["bare"],
+        "legacy" => vec!["sh"],
+        "segwitv0" => vec!["wsh", "shwsh"],
+        "tap" => vec!["tr"],
+        _ => vec![],
+    };
+    let mut out = serde_json::Map::new();
+    out.insert("ok".to_string(), json!(true));
+    out.insert("err".to_string(), json!(""));
+    let mut list = vec![];
+    for w in wraps {
+        let ds = crate::sat::wrap_str(u, w, ms_str);
+        let from_str = catch_unwind(|| Descriptor::<Pk>::from_str(&ds));
+        let fs = match &from_str {
+            Ok(Ok(_)) => "ok".to_string(),
+            Ok(Err(e)) => format!("err:{}", e),
+            Err(_) => "PANIC".to_string(),
+        };
+        // typed constructors from an already-parsed (MAX) miniscript
+        let newr = catch_unwind(|| -> String {
+            use miniscript::ValidationParams as VP;
+            match w {
+                "wsh" => match Miniscript::<Pk, miniscript::Segwitv0>::from_str_with_validation_params(ms_str, &VP::MAX) {
+                    Ok(m) => if Wsh::new(m).is_ok() { "ok".into() } else { "err".into() },
+                    Err(_) => "noparse".into(),
+                },
+                "shwsh" => match Miniscript::<Pk, miniscript::Segwitv0>::from_str_with_validation_params(ms_str, &VP::MAX) {
+                    Ok(m) => if Sh::new_wsh(m).is_ok() { "ok".into() } else { "err".into() },
+                    Err(_) => "noparse".into(),
+                },
+                "sh" => match Miniscript::<Pk, miniscript::Legacy>::from_str_with_validation_params(ms_str, &VP::MAX) {
+                    Ok(m) => if Sh::new(m).is_ok() { "ok".into() } else { "err".into() },
+                    Err(_) => "noparse".into(),
+                },
+                "bare" => match Miniscript::<Pk, miniscript::BareCtx>::from_str_with_validation_params(ms_str, &VP::MAX) {
+                    Ok(m) => if Bare::new(m).is_ok() { "ok".into() } else { "err".into() },
+                    Err(_) => "noparse".into(),
+                },
+                "tr" => match Miniscript::<Pk, miniscript::Tap>::from_str_with_validation_params(ms_str, &VP::MAX) {
+                    Ok(m) => {
+                        let ik = Pk::from_str(&u.key_str(crate::sat::INTERNAL_KEY, "tap")).unwrap();
+                        let tree = miniscript::descriptor::TapTree::leaf(m);
+                        if Descriptor::new_tr(ik, Some(tree)).is_ok() { "ok".into() } else { "err".into() }
+                    }
+                    Err(_) => "noparse".into(),
+                },
+                _ => "na".into(),
+            }
+        });
+        list.push(json!({"wrap": w, "from_str": fs.starts_with("ok"), "from_str_msg": fs, "new": newr.unwrap_or("PANIC".into())}));
+    }
+    out.insert("list".to_string(), json!(list));
+    Value::Object(out)
 }
